@@ -160,6 +160,42 @@ func runCensus(P *Prog, c *Census) *censusResult {
 				}
 			}
 		}
+	case "field-calls":
+		// method calls whose receiver is (the address or value of) field head[0]
+		// (Type.field) and whose method is head[1]
+		for _, fn := range P.moduleFuncs() {
+			for _, b := range fn.Blocks {
+				for _, ins := range b.Instrs {
+					cc := callCommonOf(ins)
+					if cc == nil || cc.IsInvoke() || len(cc.Args) == 0 {
+						continue
+					}
+					callee := cc.StaticCallee()
+					if callee == nil || callee.Name() != head[1] {
+						continue
+					}
+					var fa *ssa.FieldAddr
+					switch r := cc.Args[0].(type) {
+					case *ssa.FieldAddr:
+						fa = r
+					case *ssa.UnOp:
+						fa, _ = r.X.(*ssa.FieldAddr)
+					}
+					if fa == nil {
+						continue
+					}
+					pt := fa.X.Type().Underlying().(*types.Pointer).Elem()
+					f := pt.Underlying().(*types.Struct).Field(fa.Field)
+					if !strings.HasSuffix(typeName(pt)+"."+f.Name(), "."+head[0]) {
+						continue
+					}
+					count++
+					if !allowed[fnKey(fn)] {
+						fail(fmt.Sprintf("%s calls %s.%s", fnKey(fn), head[0], head[1]))
+					}
+				}
+			}
+		}
 	case "deferred":
 		// every call of head[0] inside the allowed functions is a defer
 		target := stripTypeArgs(qualifyKey(head[0], c.Pkg))
